@@ -16,7 +16,7 @@ def diagnose (cs : String) : String :=
   | .ok c =>
     match c.k with
     | some k =>
-      match Kan.runHist false true false c.hist { k } with
+      match Kan.runHist false true false c.hist (c.run0 k) with
       | .ok r => (match r.diag with | [] => "" | d :: _ => s!" [model: {d}]")
       | .error _ => ""
     | none => ""
